@@ -22,7 +22,7 @@ _clock = time.perf_counter     # never the patched time.time
 class Result:
     """What one simulated run reports."""
     __slots__ = ("violations", "stats", "faults", "probes", "vtime", "steps", "sig", "nontrivial",
-                 "digest", "sample", "states")
+                 "digest", "sample", "states", "xdigest")
 
     def __init__(self):
         self.violations = []       # [(property, clause, shape, message)]
@@ -36,6 +36,7 @@ class Result:
         self.digest = ""           # digest of the semantic trace
         self.sample = None         # human-readable rendering of the scenario
         self.states = set()        # abstract states / interleaving signatures (ints)
+        self.xdigest = None        # digest that must also agree across PYTHONHASHSEED values (default: digest)
 
     def viol(self, prop, clause, shape, message):
         self.violations.append((prop, clause, shape, str(message)[:1500]))
